@@ -105,7 +105,7 @@ def run_property(prop, tier, seed):
                 except ValueError:
                     break
             open(path, "w").writelines(good)
-        r = vlib.validate_trace(path)
+        r = vlib.validate_trace(path, timeout=5400 if tier == "thorough" else 1800)
         r["family"] = name
         r["seed"] = sd
         r["died"] = died
